@@ -78,11 +78,10 @@ static int print_s(void (*printchar_handler)(void *d, int c),
     int pc, len, space_count;
 
     pc = 0;
-    len = (int)strlen(str);
-    if (ops & OPS_PREC_IS_GIVEN)
-    {
-        len = MIN(max_len, len);
-    }
+    /* with a precision the string need not be terminated: never look
+     * further than the precision allows */
+    len = ops & OPS_PREC_IS_GIVEN ? (int)strnlen(str, max_len)
+                                  : (int)strlen(str);
     space_count = width > len ? width - len : 0;
 
     if (!(ops & OPS_FLAG_LEFT_ALIGN))
